@@ -274,7 +274,8 @@ type uploadSpec struct {
 	// stream and is what the object consists of (size, MD5, stored bytes). Unrelated to Gzip below, which compresses
 	// the request body in transit.
 	ContentEncoding string
-	Gzip            bool   // media / multipart request body gzip-compressed
+	Gzip            bool   // request bodies gzip-compressed in transit (media / multipart body; resumable: the start request and every chunk)
+	Streamed        bool   // request bodies (media / multipart body, resumable start and chunks) sent without a Content-Length (chunked)
 	MD5             string // "", right, wrong, malformed (multipart / resumable)
 	Conds           model.Conds
 	Boundary        string
@@ -307,6 +308,9 @@ func (u *uploadSpec) describe() string {
 	}
 	if u.Gzip {
 		s += " gzip"
+	}
+	if u.Streamed {
+		s += " streamed"
 	}
 	if u.ContentEncoding != "" && u.Proto != "media" {
 		s += " contentEncoding=" + u.ContentEncoding
@@ -363,18 +367,42 @@ func condParams(c model.Conds) [][2]string { return c.Params() }
 func (e *exec) sendUpload(u *uploadSpec, r *common.Rand) (final *drive.Resp, sub []string, complaint string) {
 	q := condParams(u.Conds)
 	e.sess = nil
+	// how the bodies of this upload's own requests travel (set around each of them, so that requests of hooks that run
+	// while a session is open are not affected)
+	wire := drive.Wire{Streamed: u.Streamed, Gzip: u.Gzip && u.Proto == "resumable"}
+	wired := func(fn func() *drive.Resp) *drive.Resp {
+		e.cl.Wire = wire
+		defer func() { e.cl.Wire = drive.Wire{} }()
+		return fn()
+	}
+	if u.Streamed && len(u.Body) > 0 {
+		e.stats["uploads_streamed_without_content_length"]++
+		if u.Gzip {
+			e.stats["uploads_streamed_without_content_length_gzip_"+u.Proto]++
+		}
+	}
 	switch u.Proto {
 	case "media":
-		return e.cl.UploadMedia(u.Bucket, u.Name, u.CT, u.Body, u.Gzip, q), nil, ""
+		return wired(func() *drive.Resp { return e.cl.UploadMedia(u.Bucket, u.Name, u.CT, u.Body, u.Gzip, q) }), nil, ""
 	case "multipart":
 		partCT := ""
 		if u.CT != "" && (u.CTMode == "both" || u.CTMode == "part") {
 			partCT = u.CT
 		}
-		return e.cl.UploadMultipart(u.Bucket, u.metaJSON(), partCT, u.Body, u.Boundary, u.Gzip, q), nil, ""
+		return wired(func() *drive.Resp {
+			return e.cl.UploadMultipart(u.Bucket, u.metaJSON(), partCT, u.Body, u.Boundary, u.Gzip, q)
+		}), nil, ""
 	}
 	// resumable
-	init, id, loc := e.cl.ResumableInit(u.Bucket, u.metaJSON(), q, u.CT)
+	var init *drive.Resp
+	var id, loc string
+	wired(func() *drive.Resp {
+		init, id, loc = e.cl.ResumableInit(u.Bucket, u.metaJSON(), q, u.CT)
+		return init
+	})
+	if u.Gzip {
+		e.stats["resumable_sessions_with_gzip_request_bodies"]++
+	}
 	sub = append(sub, fmt.Sprintf("init -> %d Location=%q", init.Status, init.Header.Get("Location")))
 	if !init.OK() {
 		return init, sub, ""
@@ -407,7 +435,7 @@ func (e *exec) sendUpload(u *uploadSpec, r *common.Rand) (final *drive.Resp, sub
 	queries, resends := 0, 0 // bounded so that truncating re-sends cannot starve progress
 	dataChunks := 0          // data chunks answered 308 so far
 	send := func(cr string, body []byte) *drive.Resp {
-		rsp := e.cl.ResumableChunk(method, target, cr, body)
+		rsp := wired(func() *drive.Resp { return e.cl.ResumableChunk(method, target, cr, body) })
 		sess.lastCR, sess.lastBody = cr, body
 		sub = append(sub, fmt.Sprintf("%s %q (%d bytes) -> %d Range=%q", method, cr, len(body), rsp.Status, rsp.Header.Get("Range")))
 		e.stats["resumable_requests"]++
